@@ -1,12 +1,12 @@
 (** C08 - Partitioning heuristics meet their proven worst-case guarantees.
     PROVED for all inputs: greedy (LPT) largest sum <= (4/3 - 1/(3k)) OPT (Graham's bound, full statement: lpt_ratio_43);
     the gap largest - smallest <= largest item for greedy, Karmarkar-Karp and round-robin; round-robin's sums are non-increasing in
-    bin index and its cardinalities differ by at most one; weaker constants for every k: KK largest <= (3/2 - 1/(2k)) OPT, multifit largest <= 2 OPT,
+    bin index and its cardinalities differ by at most one; weaker constants for every k: KK largest <= (3/2 - 1/(2k)) OPT, multifit largest <= (5/4 + 2^-it) OPT + 19/4 (and <= 2 OPT),
     greedy smallest >= 3/4 OPTmin (the limit of the sharp constant) and >= k/(2k-1) OPTmin; the sharp KK and greedy-smallest bounds for 1 and 2 bins.
     NOT proved (research-level case analyses, DESIGN section 8; tested against the verified oracle opt_value and planted optima):
     KK 4/3 - 1/(3k); greedy smallest >= (3k-1)/(4k-2) OPTmin; multifit 1.22 + 2^-iterations.
     Statements only; proofs in Proofs/{GreedyProofs,KKProofs,CKKOptimal,RatioProofs,MultifitProofs,OracleSpec}.v. *)
-From Prtpy Require Import Base.Prelude Model.Binner Model.Objectives Model.Greedy Model.KK Model.Multifit Spec.Partition Oracle.Reach Proofs.GreedyProofs Proofs.KKProofs Proofs.CKKOptimal Proofs.RatioProofs Proofs.MultifitProofs Proofs.OracleSpec Proofs.KKRatioProofs Proofs.LPTMinProofs Proofs.LPTMinFullProofs.
+From Prtpy Require Import Base.Prelude Model.Binner Model.Objectives Model.Greedy Model.KK Model.Multifit Spec.Partition Oracle.Reach Proofs.GreedyProofs Proofs.KKProofs Proofs.CKKOptimal Proofs.RatioProofs Proofs.MultifitProofs Proofs.OracleSpec Proofs.KKRatioProofs Proofs.LPTMinProofs Proofs.LPTMinFullProofs Proofs.MultifitRatioProofs.
 
 (** greedy: 3k * largest <= (4k - 1) * OPT, i.e. largest <= (4/3 - 1/(3k)) OPT *)
 Theorem C08_lpt_ratio_43 :
@@ -82,6 +82,32 @@ Theorem C08_multifit_ratio_2_partial :
   Opt MinLargest k (map valueof items) opt -> zmax (sums b) <= 2 * opt.
 Proof. exact @multifit_ratio_2. Qed.
 Print Assumptions C08_multifit_ratio_2_partial.
+
+(** PARTIAL (constant 5/4 instead of 1.22, explicit rounding slack): 4 * 2^it * largest <= (5 * 2^it + 4) * OPT + 19 * 2^it, i.e. largest <= (5/4 + 2^-it) OPT + 19/4 (the slack comes from first-fit running at the integer part of the float capacity and from the rounding of the midpoints) *)
+Theorem C08_multifit_ratio_54_partial :
+  forall (A : Type) (valueof : A -> Z) (it k : nat) (items : list A) (b : bins A) (opt : Z),
+  items <> [] ->
+  Forall (fun x : A => 0 <= valueof x) items ->
+  (1 <= k)%nat ->
+  multifit valueof true it k items = Ok b ->
+  Opt MinLargest k (map valueof items) opt ->
+  zsum (map valueof items) <= 2 ^ 53 ->
+  4 * 2 ^ Z.of_nat it * zmax (sums b) <=
+  (5 * 2 ^ Z.of_nat it + 4) * opt + 19 * 2 ^ Z.of_nat it.
+Proof. exact @multifit_ratio_54. Qed.
+Print Assumptions C08_multifit_ratio_54_partial.
+
+(** the capacity lemma behind it: first-fit-decreasing with an integer capacity c >= 5/4 T packs into k bins whenever a partition into k bins with sums <= T exists *)
+Theorem C08_ffd_capacity_54 :
+  forall (k : nat) (T c : Z) (vs : list Z),
+  (1 <= k)%nat ->
+  Forall (fun v : Z => 0 <= v) vs ->
+  Packable T vs k ->
+  5 * T <= 4 * c ->
+  exists b : bins Z,
+  Packing.first_fit idZ false c (sort_desc idZ vs) = Ok b /\ (length b <= k)%nat.
+Proof. exact @ffd_capacity_54. Qed.
+Print Assumptions C08_ffd_capacity_54.
 
 (** PARTIAL: greedy smallest >= OPTmin - largest item *)
 Theorem C08_lpt_min_partial :
